@@ -207,12 +207,28 @@ fn scenario(w: Work) {
                             reads.lock().unwrap().push((h as *const _ as u64, a, b, "read().len"));
                         }
                         ROp::Long(_, n) | ROp::Mapped(_, n) => {
-                            let g = h.read();
-                            let v0 = g.check("guard");
-                            let tid = g.t.id;
-                            ledger::pin(tid);
+                            // the guard under test: plain, map, try_map (success path) or a downcast of the untyped guard
+                            let (mapped, hold): (Option<AssetReadGuard<[u64]>>, Option<AssetReadGuard<Big>>) = if let ROp::Mapped(_, n) = op {
+                                match n % 3 {
+                                    0 => (Some(AssetReadGuard::map(h.read(), |b| &b.vec[..])), None),
+                                    1 => (AssetReadGuard::try_map(h.read(), |b| Some(&b.vec[..])).ok(), None),
+                                    _ => (None, Some(h.as_untyped().read().downcast::<Big>().ok().expect("downcast to the stored type"))),
+                                }
+                            } else {
+                                (None, Some(h.read()))
+                            };
+                            // reference observations, taken through the guard itself
+                            let v0 = match (&mapped, &hold) {
+                                (Some(m), _) => m[0],
+                                (_, Some(g)) => g.check("guard"),
+                                _ => unreachable!(),
+                            };
                             let id0 = rid_num(h.last_reload_id());
-                            let (mapped, hold): (Option<AssetReadGuard<[u64]>>, Option<AssetReadGuard<Big>>) = if matches!(op, ROp::Mapped(..)) { (Some(AssetReadGuard::map(g, |b| &b.vec[..])), None) } else { (None, Some(g)) };
+                            // the value behind the guard must stay alive: find its tracked id (only known through a typed guard)
+                            let tid = hold.as_ref().map(|g| g.t.id);
+                            if let Some(t) = tid {
+                                ledger::pin(t);
+                            }
                             for _ in 0..*n {
                                 detsim::thread::yield_now();
                                 let (v, ok) = match (&mapped, &hold) {
@@ -223,9 +239,13 @@ fn scenario(w: Work) {
                                 detsim::check(ok && v == v0, "C07/value-changed-under-guard", || format!("{id}: guard taken at version {v0}, later reads {v} through the same guard"));
                                 let idn = rid_num(h.last_reload_id());
                                 detsim::check(idn == id0, "C07/reload-id-changed-under-guard", || format!("{id}: reload id was {id0} when the guard was taken, {idn} while it is still alive"));
-                                detsim::check(ledger::is_live(tid), "C07/value-dropped-under-guard", || format!("{id}: value #{tid} was dropped while a read guard is alive"));
+                                if let Some(tid) = tid {
+                                    detsim::check(ledger::is_live(tid), "C07/value-dropped-under-guard", || format!("{id}: value #{tid} was dropped while a read guard is alive"));
+                                }
                             }
-                            ledger::unpin(tid);
+                            if let Some(tid) = tid {
+                                ledger::unpin(tid);
+                            }
                             drop(mapped);
                             drop(hold);
                         }
